@@ -10,6 +10,9 @@ event = ['sub', pid, 'plain', x] | ['sub', pid, 'list', [x..]] | ['sub', pid, 'i
       | ['fclear'] | ['fput', pid, kind...] | ['okfclear']     foreign-thread halves of _put
       | ['subwait', pid, w, cancel, kind...]   submit and `await wait(cancel=..)` in ONE step of one task, with no
                                                loop iteration in between (model: Submit pid kind ; Wait w cancel)
+      | ['fputwait', pid, w, cancel, kind...]  second half of a foreign submission immediately followed, in the same
+                                               foreign thread, by `await wait_from_anywhere(cancel=..)` run in that
+                                               thread's own event loop (model: FPut pid kind ; Wait w cancel)
 obs   = one list per event, entries
         ['start', callno, sorted set, tick] | ['end', callno, ok, sorted set re-read at the end]
       | ['wret', w, tick, n_successful_calls_so_far] | ['werr', w] | ['dead'] | ['hang'] | ['late', ...]
@@ -97,6 +100,11 @@ class _ForeignPut:
         self.go = threading.Semaphore(0)
         self.err = []
         self.ended = False
+        self.nops = 0           # gated operations of _put performed so far
+        self.wid = None         # wait id when the thread goes on to wait_from_anywhere()
+        self.wait_called = False
+        self.loop2 = None
+        self.task2 = None
 
         def body():
             try:
@@ -105,14 +113,22 @@ class _ForeignPut:
                 self.err.append(e)
             finally:
                 self.reached.put('end')
-        self.thread = threading.Thread(target=body, name='foreign-put')
+        self.thread = threading.Thread(target=body, name='foreign-put') if thunk is not None else None
 
     def gate(self, opname, do):
+        if self.nops >= 2:
+            # not part of _put any more (e.g. run_coroutine_threadsafe of wait_from_anywhere):
+            # perform it, then tell the driver that something was scheduled on the owning loop
+            try:
+                return do()
+            finally:
+                self.reached.put('sched')
         self.reached.put(opname)
         self.go.acquire()
         try:
             return do()
         finally:
+            self.nops += 1
             self.done.put(opname)
 
     def start_and_first(self):
@@ -134,9 +150,34 @@ class _ForeignPut:
         self.go.release()
         self.done.get()
 
+    def until_scheduled_or_end(self):
+        """after the second half: let the thread run on until it has either scheduled its wait() on
+        the owning loop or returned"""
+        if self.ended:
+            return 'end'
+        op = self.reached.get()
+        if op == 'end':
+            self.ended = True
+            self.thread.join()
+        return op
+
     def finish(self):
+        if self.wid is not None and self.nops >= 2:
+            return              # a waiter: ends when its wait() does (see abandon)
         while not self.ended:
             self._one()
+
+    def abandon(self):
+        """end of the run: a foreign waiter whose wait() never returned"""
+        if self.ended or not self.thread.is_alive():
+            return
+        self.thread.join(0.5)
+        if self.thread.is_alive() and self.loop2 is not None and self.task2 is not None:
+            try:
+                self.loop2.call_soon_threadsafe(self.task2.cancel)
+            except BaseException:
+                pass
+            self.thread.join(1.0)
 
 
 def _current_fp(run):
@@ -361,6 +402,32 @@ class Run:
                 ev_obj.set = set_then_foreign_clear
         elif k == 'fclear':
             self._first_half(self.idx)
+        elif k == 'fputwait':
+            pid, w, cancel = ev[1], ev[2], bool(ev[3])
+            fp = self.fthread.pop(self.idx, None)
+            if fp is None:
+                # no first half is pending: a foreign thread that only puts (no clear), then waits
+                if pid in self.seen:
+                    return
+                self.seen.add(pid)
+                it = self.make_producer(['fput', pid] + list(ev[4:]))[1]()
+                fp = _ForeignPut(None)
+                fp.nops = 2
+                fp.thread = threading.Thread(
+                    target=self._waiter_body(fp, lambda: self._real_loop.call_soon_threadsafe(b.q.put_nowait, it), w, cancel),
+                    name='foreign-put')
+                self.fputs.append(fp)
+                fp.wid = w
+                fp.thread.start()
+            else:
+                fp.second()
+            op = fp.until_scheduled_or_end()
+            if op == 'end' and not fp.wait_called:
+                # wait_from_anywhere() came back without ever calling wait() on the owning loop
+                if fp.err:
+                    sim.obs('werr', w)
+                else:
+                    sim.obs('wret', w, sim.ticks(), self.nok)
         elif k == 'fput':
             fp = self.fthread.pop(self.idx, None)
             if fp is not None:
@@ -393,10 +460,38 @@ class Run:
             return
         j, pev = m
         self.seen.add(pev[1])
-        fp = _ForeignPut(self.make_producer(pev)[0])
+        if pev[0] == 'fputwait':
+            submit = self.make_producer(['fput', pev[1]] + list(pev[4:]))[0]
+            fp = _ForeignPut(None)
+            fp.wid = pev[2]
+            fp.thread = threading.Thread(target=self._waiter_body(fp, submit, pev[2], bool(pev[3])), name='foreign-put')
+        else:
+            fp = _ForeignPut(self.make_producer(pev)[0])
         self.fputs.append(fp)
         self.fthread[j] = fp
         fp.start_and_first()
+
+    def _waiter_body(self, fp, submit, w, cancel):
+        """body of a foreign thread that submits and then awaits wait_from_anywhere() in its own loop"""
+        b = self.buffer
+
+        def body():
+            try:
+                submit()
+                loop2 = asyncio.new_event_loop()
+                fp.loop2 = loop2
+                try:
+                    fp.task2 = loop2.create_task(b.wait_from_anywhere(cancel=cancel))
+                    loop2.run_until_complete(fp.task2)
+                except asyncio.CancelledError:
+                    pass
+                finally:
+                    loop2.close()
+            except BaseException as e:
+                fp.err.append(e)
+            finally:
+                fp.reached.put('end')
+        return body
 
     def _foreign(self, thunk):
         """Run thunk in a real second thread while the loop thread is parked here."""
@@ -438,7 +533,7 @@ class Run:
                 used_pids.add(e[1])
             elif e[0] in ('fclear', 'okfclear'):
                 open_firsts.append(i)
-            elif e[0] == 'fput':
+            elif e[0] in ('fput', 'fputwait'):
                 if e[1] not in used_pids and open_firsts:
                     self.fmatch[open_firsts.pop(0)] = (i, e)
                 used_pids.add(e[1])
@@ -461,6 +556,28 @@ class Run:
                 ge.set()
             self.buffer.event = ge
             self.buffer.loop = _LoopProxy(self._real_loop, self)
+            orig_wait = self.buffer.wait
+
+            def wait_entry(*, cancel=True):
+                # wait_from_anywhere() of a foreign waiter builds its wait() coroutine here (in the foreign
+                # thread); the coroutine itself runs on the owning loop, where the return is logged
+                fp = _current_fp(self)
+                if fp is None or fp.wid is None:
+                    return orig_wait(cancel=cancel)
+                fp.wait_called = True
+                w = fp.wid
+
+                async def co():
+                    try:
+                        await orig_wait(cancel=cancel)
+                    except asyncio.CancelledError:
+                        raise
+                    except BaseException:
+                        sim.obs('werr', w)
+                        return
+                    sim.obs('wret', w, sim.ticks(), self.nok)
+                return co()
+            self.buffer.wait = wait_entry
             d = self.buffer._waiting
             self.tasks.insert(0, d)
             d.add_done_callback(lambda t: (sim.obs('dead'), self._consume(t)))
@@ -493,6 +610,8 @@ class Run:
                     if not fut.done():
                         fut.cancel()
                 sim.close()
+                for fp in self.fputs:
+                    fp.abandon()
             finally:
                 logging.disable(prev)
 
@@ -538,6 +657,19 @@ def _nats(l):
     return C.coq_list([C.coq_nat(int(x)) for x in l])
 
 
+def _obs_nats(l):
+    """elements of an observed set: anything that is not one of the small integers the script uses
+    (a foreign object the implementation slipped in) becomes the sentinel 4999"""
+    out = []
+    for x in l:
+        try:
+            v = int(x)
+        except BaseException:
+            v = 4999
+        out.append(C.coq_nat(v if 0 <= v < 4999 else 4999))
+    return C.coq_list(out)
+
+
 def kind_coq(ev, off):
     k = ev[off]
     if k == 'plain':
@@ -573,9 +705,9 @@ def ev_coq(ev):
 def ob_coq(o):
     k = o[0]
     if k == 'start':
-        return f'FnStart {o[1]} {_nats(o[2])} {C.coq_N(o[3])}'
+        return f'FnStart {o[1]} {_obs_nats(o[2])} {C.coq_N(o[3])}'
     if k == 'end':
-        return f'FnEnd {o[1]} {C.coq_bool(o[2])} {_nats(o[3])}'
+        return f'FnEnd {o[1]} {C.coq_bool(o[2])} {_obs_nats(o[3])}'
     if k == 'wret':
         return f'WaitRet {o[1]} {C.coq_N(o[2])} {o[3]}'
     if k == 'dead':
@@ -589,8 +721,8 @@ def expand(evs, obs=None):
     out_e, out_o = [], []
     for i, e in enumerate(evs):
         o = obs[i] if obs is not None and i < len(obs) else []
-        if e[0] == 'subwait':
-            out_e.append(['sub', e[1]] + list(e[4:]))
+        if e[0] in ('subwait', 'fputwait'):
+            out_e.append(['sub' if e[0] == 'subwait' else 'fput', e[1]] + list(e[4:]))
             out_o.append([])
             out_e.append(['wait', e[2], e[3]])
             out_o.append(o)
@@ -753,6 +885,9 @@ class Prog:
         elif ch in 'Bb':                     # buffer(x); await wait(cancel=..) with no loop iteration in between
             e = ['subwait', self.pid, self.wid, ch == 'B', 'plain', self.fresh()[0]]
             self.wid += 1
+        elif ch in 'UV':                     # second half of a foreign _put, then wait_from_anywhere() in that thread
+            e = ['fputwait', self.pid, self.wid, ch == 'U', 'plain', self.fresh()[0]]
+            self.wid += 1
         elif ch == 'X':
             e = ['shutdown']
         elif ch == 'c':
@@ -763,7 +898,7 @@ class Prog:
             e = ['okfclear']
         else:
             raise ValueError(ch)
-        if e[0] in ('sub', 'fput', 'subwait'):
+        if e[0] in ('sub', 'fput', 'subwait', 'fputwait'):
             self.pid += 1
         self.evs.append(e)
         return True
@@ -811,7 +946,8 @@ def distribution(cases, obs):
              shutdown=0, foreign=0, submit_then_wait=0, fn_starts=0, fn_ok=0, fn_failed=0, wait_returns=0,
              daemon_ended=0, hang=0, T8=0, T100=0, T1024=0, T_other=0, settled_tail=0)
     keymap = {'py': 'pyield', 'pf': 'pfail', 'pe': 'pend', 'adv': 'advance', 'ok': 'fnok', 'fail': 'fnfail',
-              'shutdown': 'shutdown', 'fclear': 'foreign', 'fput': 'foreign', 'okfclear': 'foreign'}
+              'shutdown': 'shutdown', 'fclear': 'foreign', 'fput': 'foreign', 'okfclear': 'foreign',
+              'fputwait': 'foreign'}
     for c, o in zip(cases, obs):
         d[{8: 'T8', 100: 'T100', 1024: 'T1024'}.get(c['T'], 'T_other')] += 1
         evs = c['evs']
@@ -885,7 +1021,7 @@ def grid_cases(max_subs=4, timeouts=TIMEOUTS, kinds='S'):
     return out
 
 
-def foreign_cases(base_alpha='SgyempKFWw', maxlen=3, T=8):
+def foreign_cases(base_alpha='SgyempKFWw', maxlen=3, T=8, puts='u'):
     """one foreign submission split in its two halves (FClear ... FPut) at every
     pair of quiescent points of every short own-thread program, and
     FnOkThenFClear in place of any FnOk with the FPut at any later point"""
@@ -896,17 +1032,19 @@ def foreign_cases(base_alpha='SgyempKFWw', maxlen=3, T=8):
         n = len(w)
         for i in range(n + 1):
             for j in range(i, n + 1):
-                v = w[:i] + 'c' + w[i:j] + 'u' + w[j:]
-                c = letters_case(T, v)
-                if c:
-                    out.append(c)
-        for i, ch in enumerate(w):
-            if ch == 'K':
-                for j in range(i + 1, n + 1):
-                    v = w[:i] + 'k' + w[i + 1:j] + 'u' + w[j:]
+                for u in puts:
+                    v = w[:i] + 'c' + w[i:j] + u + w[j:]
                     c = letters_case(T, v)
                     if c:
                         out.append(c)
+        for i, ch in enumerate(w):
+            if ch == 'K':
+                for j in range(i + 1, n + 1):
+                    for u in puts:
+                        v = w[:i] + 'k' + w[i + 1:j] + u + w[j:]
+                        c = letters_case(T, v)
+                        if c:
+                            out.append(c)
     return out
 
 
